@@ -164,7 +164,8 @@ contract(
 def _tables(rng, S, C, P, CW=None, extra_rows=0, pad=False):
     CW = C if CW is None else CW
     idx = np.array([[rng.randrange(P) for _ in range(C)] for _ in range(S)], dtype=int).reshape(S, C)
-    w = gens.reals(rng, (S + extra_rows, CW), -2, 2)
+    w = gens.reals(rng, (S + extra_rows, CW), -2, 2, special=False)      # (no +-1e8 specials: sums are compared in another order)
+    w[w < -1.6] = 0.0
     if pad:
         for s in range(S):
             k = rng.randint(0, C)
@@ -178,7 +179,7 @@ def _g_dwt(rng, tier):
     for S, C, P in [(0, 0, 1), (0, 2, 0), (1, 0, 2), (1, 1, 1), (1, 2, 2), (2, 1, 2), (2, 2, 2), (2, 2, 3), (3, 1, 2)][: gens.budget(tier, 8, 9)]:
         for ent in itertools.product(range(P), repeat=S * C):
             yield {"pix_indexes_for_sub_slim_index": np.array(ent, dtype=int).reshape(S, C),
-                   "pix_weights_for_sub_slim_index": gens.reals(rng, (S, C), -2, 2), "pixels": P}
+                   "pix_weights_for_sub_slim_index": gens.reals(rng, (S, C), -2, 2, special=False), "pixels": P}
     for _ in range(gens.budget(tier, 300, 3000)):
         S, C, P = rng.randint(0, 6), rng.randint(0, 4), rng.randint(1, 6)
         r = rng.random()
@@ -377,7 +378,7 @@ def _g_ssi(rng, tier):
     for S, C, P in [(0, 0, 1), (0, 2, 2), (1, 0, 1), (1, 1, 1), (1, 2, 2), (2, 1, 2), (2, 2, 2), (1, 3, 2), (3, 1, 3), (2, 2, 3)][: gens.budget(tier, 9, 10)]:
         for ent in itertools.product(range(P), repeat=S * C):
             yield {"pix_indexes_for_sub_slim_index": np.array(ent, dtype=int).reshape(S, C),
-                   "pix_weights_for_sub_slim_index": gens.reals(rng, (S, C), -2, 2), "pix_pixels": P}
+                   "pix_weights_for_sub_slim_index": gens.reals(rng, (S, C), -2, 2, special=False), "pix_pixels": P}
     for _ in range(gens.budget(tier, 300, 3000)):
         S, C, P = rng.randint(0, 6), rng.randint(0, 4), rng.randint(1, 6)
         r = rng.random()
